@@ -424,6 +424,21 @@ fn run_darr<const S0: bool>(ctx: &mut Ctx, prop: &str, gen: &BitGen) {
         ctx.count("sparse_darray_cases");
     }
     check_reported(ctx, &t, heap, 8, 0, &format!("DArray<{S0}> (n={}, ones={})", bits.len(), ones));
+    // the serialized form does not record SELECT0_SUPPORT: the bytes of one flavour load as the other one, and whatever
+    // that value then owns must be what it reports
+    let bytes = bincode::serialize(&t).unwrap();
+    if S0 {
+        let (d, heap) = measured(|| bincode::deserialize::<DArray<false>>(&bytes));
+        if let Ok(d) = d {
+            check_reported(ctx, &d, heap, 8, 0, &format!("DArray<false> deserialized from the bytes of a DArray<true> (n={}, ones={})", bits.len(), ones));
+        }
+    } else {
+        let (d, heap) = measured(|| bincode::deserialize::<DArray<true>>(&bytes));
+        if let Ok(d) = d {
+            check_reported(ctx, &d, heap, 8, 0, &format!("DArray<true> deserialized from the bytes of a DArray<false> (n={}, ones={})", bits.len(), ones));
+        }
+    }
+    ctx.count("cross_flavour_deserializations");
 }
 
 fn run_bits(ctx: &mut Ctx, prop: &str, gen: &BitGen) {
